@@ -135,7 +135,9 @@ def render(am, world_box, class_name=None, strict_states=False, uid=None):
                 kw[g] = v[0] if len(v) == 1 and t.get("unwrap_single", True) else v
         if t.get("internal"):
             kw["internal"] = True
-        if ev_objs:
+        if not t["events"]:
+            states[t["src"]].to(states[t["tgt"]], **kw)  # a transition that no event is bound to
+        elif ev_objs:
             evs = [ev_objs[e] for e in t["events"]]
             states[t["src"]].to(states[t["tgt"]], event=evs[0] if len(evs) == 1 else evs, **kw)
         else:
